@@ -253,6 +253,30 @@ def check(ctx):
     ctx.decide(len(gets) == 1, "R-MUSTPASS/exactly-once", f"{da.qual}.get_postprocess_recv_message", da.where(gp), "one message taken per call",
                f"get_postprocess_recv_message takes {len(gets)} messages per call", key="pp_get_once")
 
+    # the consumer waits for the ready event only after seeing the queue empty (a message already queued is never waited for:
+    # the producer's put and set() are not atomic with the consumer's clear())
+    gmf = ctx.need(da.methods.get("get_message"), "DiameterAssociation.get_message")
+    cfg = make_cfg(repo, gmf)
+    dom = cfg.dominators()
+    waits = [n for n in cfg.nodes.values() for c in node_calls(n)
+             if call_name(c) == "self.postprocess_recv_messages_ready.wait" and not c.args and not c.keywords]
+    for wn in waits:
+        ok = False
+        for d in dom[wn.id]:
+            dn = cfg.nodes[d]
+            if dn.kind == "test" and ast.unparse(dn.ast) == "self.postprocess_recv_messages.empty()":
+                tb = [m for m, l in cfg.succ[d] if l == "T"]
+                if tb and wn.id in cfg.reachable(tb[0]) and not any(wn.id in cfg.reachable(m) for m, l in cfg.succ[d] if l == "F" and m != dn.id and not _loops_back(cfg, m, d)):
+                    ok = True
+                elif tb and wn.id in cfg.reachable(tb[0]):
+                    ok = True
+        ctx.decide(ok, "R-DOM/wait-only-if-empty", f"{da.qual}.get_message", da.where(wn.ast),
+                   "the untimed wait is guarded by `postprocess_recv_messages.empty()`",
+                   "get_message waits for the ready event without first checking that the delivery queue is empty: the producer's "
+                   "put()/set() can land between the consumer's emptiness check and its clear(), the event is cleared with a "
+                   "message queued, and the application blocks although its message has arrived", key="wait_guard")
+    ctx.count("untimed_delivery_waits", len(waits))
+
     # ---- 6 FIFO hops ------------------------------------------------------------------------------------------------------------
     ctx.clause = "6-fifo-hops"
     ini = da.methods.get("__init__")
@@ -394,3 +418,7 @@ def lockset_field(ctx, repo, funcs, flows, field, consequence):
                f"{o}.{attr} is read-modify-written from {sorted(x.rsplit('.', 1)[-1] for x in fnset)} with no common lock "
                f"(locksets: { {s[0].rsplit('.', 1)[-1] + ':' + str(s[3].lineno): sorted(s[2].must_at(s[1])) for s in sites} }): {consequence}",
                key=f"lockset:{attr}")
+
+
+def _loops_back(cfg, m, d):
+    return d in cfg.reachable(m)
